@@ -9,7 +9,7 @@ from ..model import body_stmts, canon, dotted, kwarg, norm, walk_no_nested
 from . import ilp, nbk
 from .c01 import rule_nullable_index
 from .c04 import array_layout
-from .common import assigned_value, else_part, enclosing, prog, resolve_local, stores_to
+from .common import assigned_value, count_if, else_part, enclosing, expand_locals, prog, resolve_local, stores_to
 
 AVG = "avg_num_annotations_per_annotator"
 
@@ -102,11 +102,19 @@ def rule_alignment_level(ctx: Ctx):
                          ("Continuum.num_units", {"sum((len(units) for units in self._annotations.values()))"}),
                          ("Continuum.num_annotators", {"len(self._annotations)"}),
                          ("Alignment.num_annotators", {"len(self.unitary_alignments[0].n_tuple)"}),
-                         ("UnitaryAlignment.nb_units", {"sum((1 for _ in filter(lambda annot_unit: annot_unit[1] is not None, self._n_tuple)))",
-                                                        "sum((1 for _, unit in self._n_tuple if unit is not None))",
-                                                        "len([u for _, u in self._n_tuple if u is not None])"})):
+                         ("UnitaryAlignment.nb_units", None)):
         g = ctx.fn(qn, "R-SUP")
         r = _ret(g)
+        if accepted is None:
+            # number of slots whose unit is not None, in any counting spelling
+            ci = count_if(r) if r is not None else None
+            if ci is None:
+                ctx.undecided("R-SUP", g, r, f"{qn}: not a recognised counting expression (not a verdict)", key="accessor")
+            else:
+                ctx.check(ci[0] in (f"{g.self_name}._n_tuple", f"{g.self_name}.n_tuple") and ci[1] == "E[1] is not None", "R-SUP", g, r,
+                          f"{qn} counts the slots of the n-tuple whose unit is not None",
+                          bad_detail=f"{qn} counts the elements of `{ci[0]}` with `{ci[1]}` instead of the slots of the n-tuple whose unit is not None", key="accessor")
+            continue
         got = canon(r) if r is not None else None
         if got is not None and g.self_name != "self":
             got = got.replace(g.self_name + ".", "self.")
